@@ -1314,6 +1314,14 @@ def check_C19(tier, seed):
                 lay["level"] = 0
                 if lay["ltype"] == 1:
                     lay["ltype"] = 0
+            # every third sprite: one cel with opacity 0 (its pixels keep their colours: invisible is not the same as absent), and
+            # opacity 0 in the link chunks (a linked cel is drawn with the opacity of the cel it links to)
+            if i % 3 == 0 and s["cels"]:
+                ks = sorted(s["cels"])
+                s["cels"][ks[rng.randrange(len(ks))]]["opacity"] = 0
+                for c in s["cels"].values():
+                    if c["kind"] == "linked":
+                        c["opacity"] = 0
             out.append((s, gen.encode(s, None, rng)))
         for g in range(16 if tier == "quick" else 96):
             s = covering_sprite(g, rng)
